@@ -130,7 +130,7 @@ pub fn st_sub_u64(a: &BigInt, _r: &mut diagn::Report, _s: diagn::Span, b: &BigIn
 }
 
 modelled! {
-    #[kani::unwind(4)]
+    #[kani::unwind(5)]
     #[kani::stub(customasm::util::BigInt::checked_sub, st_sub_u64)]
     fn c19_a_addr_position() {
         // position after `#addr a` = (a - start) x unit, for every a < 2^64: no wrap-around, no panic
@@ -145,15 +145,30 @@ modelled! {
         let mut defs = asm::defs::init();
         defs.bankdefs.define(util::ItemRef::new(0), bank(0, unit, start as i64, None, Some(0), false));
         defs.addr_directives.define(util::ItemRef::new(0), asm::AddrDirective { item_ref: util::ItemRef::new(0), address: BigInt::new(a, None) });
-        let ast = asm::AstTopLevel { nodes: vec![asm::AstAny::DirectiveAddr(asm::AstDirectiveAddr { header_span: sp(), expr: expr::Expr::Literal(sp(), expr::Value::Bool(false)), item_ref: Some(util::ItemRef::new(0)) })] };
+        // ... followed by a data element of any size: position + size must not wrap either
+        let dsize: usize = kani::any();
+        defs.data_elems.define(util::ItemRef::new(0), asm::DataElement { item_ref: util::ItemRef::new(0), position_within_bank: None, encoding_statically_known: true, encoding: BigInt::new(0, Some(dsize)), resolved: true });
+        let lit = || expr::Expr::Literal(sp(), expr::Value::Bool(false));
+        let ast = asm::AstTopLevel { nodes: vec![
+            asm::AstAny::DirectiveAddr(asm::AstDirectiveAddr { header_span: sp(), expr: lit(), item_ref: Some(util::ItemRef::new(0)) }),
+            asm::AstAny::DirectiveData(asm::AstDirectiveData { header_span: sp(), elem_size: None, elems: vec![lit()], item_refs: vec![util::ItemRef::new(0)] }),
+        ] };
         let mut it = asm::ResolveIterator::new(&ast, &defs, false, false);
         let c1 = it.next(&mut report, &decls, &defs);
         assert!(matches!(c1, Ok(Some(_))));
         std::mem::forget(c1);
-        // the second step advances the position past the #addr directive
+        // the second step advances the position past the #addr directive, the third past the data element
         let c2 = it.next(&mut report, &decls, &defs);
-        assert!(matches!(c2, Ok(None)) || c2.is_err());
+        let pos_after_addr = match &c2 { Ok(Some(ctx)) => Some(ctx.bank_data.cur_position), _ => None };
+        if let Some(p) = pos_after_addr {
+            assert!(a < start as u64 || (a - start as u64) as u128 * unit as u128 >= (1u128 << 64) || p as u128 == (a - start as u64) as u128 * unit as u128, "position after #addr is not (a - start) x unit");
+        }
         std::mem::forget(c2);
+        let before = msgs(&report);
+        let c3 = it.next(&mut report, &decls, &defs);
+        assert!(matches!(c3, Ok(None)) || (c3.is_err() && msgs(&report) > before), "position overflow neither exact nor diagnosed");
+        kani::cover!(c3.is_err(), "position + size beyond the machine word diagnosed");
+        std::mem::forget(c3);
         kani::cover!(a > (1u64 << 62), "address whose bit position exceeds the machine word");
         kani::cover!(a >= start as u64 && a < 1000, "ordinary address");
         std::mem::forget(it); std::mem::forget(decls); std::mem::forget(defs); std::mem::forget(report); std::mem::forget(ast);
